@@ -116,6 +116,12 @@ def main(argv):
   seed, shard, nshards = int(seed), int(shard), int(nshards)
   from vf.core import repo
   repo.setup_path()
+  try:
+    import resource
+    gb = float(params.get('rlimit_as_gb', 6))
+    resource.setrlimit(resource.RLIMIT_AS, (int(gb * (1 << 30)), int(gb * (1 << 30))))
+  except Exception:
+    pass
   mod = importlib.import_module('vf.checks.' + prop.lower())
   ctx = Ctx(prop, tier, seed, shard, nshards, journal_path=out_path + '.journal', params=params)
   budget = params.get('shard_budget_s')
